@@ -71,6 +71,10 @@ def cells(tier):
                     'pre_reject': 1})
     out.append({'kind': 'smtp', 'lmtp': 1, 'pipe': 1, 'n': 2,
                 'pre_reject': 1})
+    # the same address twice, before another recipient
+    out.append({'kind': 'smtp', 'lmtp': 0, 'pipe': 1, 'n': 3, 'dup': 1})
+    out.append({'kind': 'smtp', 'lmtp': 0, 'pipe': 0, 'n': 3, 'dup': 1})
+    out.append({'kind': 'smtp', 'lmtp': 1, 'pipe': 1, 'n': 3, 'dup': 1})
     out.append({'kind': 'smtp', 'lmtp': 0, 'pipe': 1, 'n': 1, 'reuse': 1})
     out.append({'kind': 'smtp', 'lmtp': 1, 'pipe': 0, 'n': 2, 'reuse': 1})
     for cls in ('pipe', 'pipe1', 'maildrop', 'dovecot'):
@@ -126,6 +130,8 @@ def run_smtp(cell):
     nc.reset()
     lmtp, pipe, n = cell['lmtp'], cell['pipe'], cell['n']
     rcpts = RC[:n]
+    if cell.get('dup'):
+        rcpts = [RC[0], RC[0]] + RC[1:n - 1]
     # stages in conversation order, with their index
     stages = [('banner', 0), ('LHLO' if lmtp else 'EHLO', 0), ('MAIL', 0)] + \
         [('RCPT', i) for i in range(n)] + [('DATA', 0)] + \
@@ -259,8 +265,10 @@ def judge_smtp(result, peer, rcpts, lmtp, fault, fkind, fcode, info, first):
                                          TransientRelayError)),
                           'per-recipient-result-not-a-relay-error',
                           got=type(v).__name__, **info)
-                api.prove(not acc.get(r, False),
-                          'failure-although-peer-accepted', rcpt=r, **info)
+                if rcpts.count(r) == 1:
+                    api.prove(not acc.get(r, False),
+                              'failure-although-peer-accepted', rcpt=r,
+                              **info)
                 check_class(v, info, rcpt=r)
         return
     # whole-message RelayError (the converse - an error although the peer
